@@ -13,7 +13,8 @@ from props.c01 import CONTEXTS, BIN
 PID = "C03"
 THEOREMS = {"CbProps.C03": ["CbProps.C03." + t for t in [
     "and_false_skips_rhs", "or_true_skips_rhs", "ternary_evaluates_one_branch", "operands_left_to_right_once",
-    "args_left_to_right_once", "and_error_origin", "div_nonzero_no_divzero"]]}
+    "args_left_to_right_once", "and_error_origin", "div_nonzero_no_divzero", "assign_target_before_rhs",
+    "assign_rhs_after_target"]]}
 
 T = "(func t int (params (int k) (int v)) ((print (s \"t\") (e (var k))) (ret (var v))))"
 BOOM = "(func boom int (params (int z)) ((print (s \"boom\")) (ret (bin div (lit 1) (var z)))))"
